@@ -59,7 +59,7 @@ func template(r *vh.RNG) *Scenario {
 		// a child spawned from the OnTerminated(child) handler of a parent that is terminating (its children were already
 		// told to stop) or restarting: the new child must not make the parent wait for ever
 		scn.Roles = []Role{
-			{Victim: "resume", Sup: []string{dirs3[r.Intn(3)]}, Rules: []Rule{{On: "L", N: -1, Inst: -1, Do: []Action{{K: "spawn", T: 1, R: 1}}},
+			{Victim: dirs3[r.Intn(3)], Sup: []string{dirs3[r.Intn(3)]}, Rules: []Rule{{On: "L", N: -1, Inst: -1, Do: []Action{{K: "spawn", T: 1, R: 1}}},
 				{On: "TO", N: 1, Inst: -1, Do: []Action{{K: "spawn", T: 2, R: 2}, {K: "tell", T: 2, N: 1}}}, {On: "P", N: 0, Inst: 0, Do: []Action{{K: "panic"}}}}},
 			{Victim: "resume"},
 			{Victim: "resume", Rules: []Rule{{On: "P", N: 1, Inst: -1, Do: []Action{{K: "reply", N: 2}}}}},
